@@ -35,7 +35,7 @@ class Adapter(EnvAdapter):
                    props=["C01", "C03", "C11", "C12", "C07"]),
             ]
         out = [
-            _c("default", 24, 150, ["seek", "seek", "mostly_masked", "random", "masked", "seek"]),
+            _c("default", 16, 120, ["seek", "seek", "mostly_masked", "random", "masked", "seek"]),
             _c("default_long", 1, 4010, ["survive"], probe_every=200, props=["C01", "C03", "C11", "C12", "C07"]),
             _c("r3c5_t4000_long", 2, 4010, ["survive"], g(3, 5, 4000), probe_every=100,
                props=["C01", "C03", "C11", "C12", "C07"]),
